@@ -225,6 +225,37 @@ func c18Upload(c *Ctx, pr *PropertyRun, prop string) {
 	if create == nil || closeFn == nil {
 		return
 	}
+	// the upload may live in a function Create delegates to (an exported
+	// variant taking options): the function reached from Create by static
+	// calls that makes the pipe
+	{
+		seenF := map[*ssa.Function]bool{}
+		var find func(fn *ssa.Function, depth int) *ssa.Function
+		find = func(fn *ssa.Function, depth int) *ssa.Function {
+			if fn == nil || seenF[fn] || depth > 3 || len(fn.Blocks) == 0 {
+				return nil
+			}
+			seenF[fn] = true
+			var found *ssa.Function
+			eachCall(fn, func(site ssa.CallInstruction) {
+				if calleeName(site.Common()) == "io.Pipe" {
+					found = fn
+				}
+			})
+			if found != nil {
+				return found
+			}
+			eachCall(fn, func(site ssa.CallInstruction) {
+				if callee := site.Common().StaticCallee(); callee != nil && inLib(callee) && found == nil {
+					found = find(callee, depth+1)
+				}
+			})
+			return found
+		}
+		if up := find(create, 0); up != nil {
+			create = up
+		}
+	}
 	// all go statements of the library
 	for _, fn := range p.ModFns {
 		if !inLib(fn) {
@@ -280,6 +311,33 @@ func c18Upload(c *Ctx, pr *PropertyRun, prop string) {
 			chans = append(chans, m)
 		}
 	})
+	fwT := p.NamedType(pkgWebdav, "fileWriter")
+	chanInCtor := false
+	if len(chans) == 0 {
+		// a constructor of the writer owns the channel
+		eachCall(create, func(site ssa.CallInstruction) {
+			callee := site.Common().StaticCallee()
+			if callee == nil || !inLib(callee) || len(callee.Blocks) == 0 {
+				return
+			}
+			eachInstr(callee, func(_ *ssa.BasicBlock, in ssa.Instruction) {
+				m, ok := in.(*ssa.MakeChan)
+				if !ok {
+					return
+				}
+				for _, u := range chanUses(m) {
+					if st, ok := u.(*ssa.Store); ok {
+						if fa, ok := st.Addr.(*ssa.FieldAddr); ok {
+							if pt, ok := fa.X.Type().Underlying().(*types.Pointer); ok && namedOf(pt.Elem()) == fwT && fwT != nil {
+								chans = append(chans, m)
+								chanInCtor = true
+							}
+						}
+					}
+				}
+			})
+		})
+	}
 	if len(chans) != 1 {
 		r.Ob(false)
 		r.Violation("chan-count|"+fnKey(create), p.Pos(create.Pos()), fmt.Sprintf("Client.Create makes %d channels, the protocol argument covers exactly one", len(chans)), nil)
@@ -307,11 +365,46 @@ func c18Upload(c *Ctx, pr *PropertyRun, prop string) {
 			}
 		}
 	}
+	// ... or it reaches the goroutine inside the writer (a method of the
+	// writer started as the goroutine): the channel is then the writer's
+	// channel field
+	viaField := false
+	if chFV == nil && !isClosure && fwT != nil {
+		for i, a := range gos[0].Call.Args {
+			if pt, ok := a.Type().Underlying().(*types.Pointer); ok && namedOf(pt.Elem()) == fwT && i < len(body.Params) {
+				chFV = body.Params[i]
+				viaField = true
+			}
+		}
+	}
 	if chFV == nil {
 		r.Ob(false)
 		r.Violation("chan-not-captured|"+fnKey(create), p.instrPos(gos[0]), "the goroutine does not get the done channel: Close would wait forever", nil)
 		return
 	}
+	// the channel a send/receive operand denotes
+	chanOf := func(v ssa.Value) ssa.Value {
+		if viaField {
+			// a load of the writer's channel field through the receiver
+			for i := 0; i < 4; i++ {
+				switch x := v.(type) {
+				case *ssa.ChangeType:
+					v = x.X
+					continue
+				case *ssa.UnOp:
+					if fa, ok := x.X.(*ssa.FieldAddr); ok && fa.X == chFV {
+						if _, isChan := fa.Type().(*types.Pointer).Elem().Underlying().(*types.Chan); isChan {
+							return chFV
+						}
+					}
+				}
+				break
+			}
+			return v
+		}
+		return chanRoot(v)
+	}
+	_ = chanInCtor
 	// a named goroutine function must have no other caller
 	if !isClosure {
 		for _, g := range p.ModFns {
@@ -362,7 +455,7 @@ func c18Upload(c *Ctx, pr *PropertyRun, prop string) {
 		for _, in := range b.Instrs {
 			switch x := in.(type) {
 			case *ssa.Send:
-				if chanRoot(x.Chan) == ssa.Value(chFV) {
+				if chanOf(x.Chan) == ssa.Value(chFV) {
 					sendsIn[b]++
 					// what is sent: nil, or a failure reported by a call — a
 					// send of anything else makes Close fail although the
@@ -603,7 +696,6 @@ func c18Upload(c *Ctx, pr *PropertyRun, prop string) {
 	}
 	_ = errRet
 	// the done channel is received from exactly once: in Close, not in a loop
-	fwT := p.NamedType(pkgWebdav, "fileWriter")
 	for _, fn := range p.ModFns {
 		if !inLib(fn) {
 			continue
@@ -640,96 +732,7 @@ func c18Upload(c *Ctx, pr *PropertyRun, prop string) {
 			}
 		})
 	}
-	// pooled objects must not outlive their return to the pool
-	for _, fn := range p.ModFns {
-		if !inLib(fn) || len(fn.Blocks) == 0 {
-			continue
-		}
-		eachCall(fn, func(site ssa.CallInstruction) {
-			if calleeName(site.Common()) != "(*sync.Pool).Put" || len(site.Common().Args) < 2 {
-				return
-			}
-			r.Role("pool-put")
-			obj := site.Common().Args[1]
-			for {
-				if mi, ok := obj.(*ssa.MakeInterface); ok {
-					obj = mi.X
-					continue
-				}
-				break
-			}
-			escapes := false
-			var visit func(v ssa.Value, depth int)
-			visit = func(v ssa.Value, depth int) {
-				if depth > 7 {
-					return
-				}
-				for _, ref := range refsOf(v) {
-					switch x := ref.(type) {
-					case *ssa.Return:
-						escapes = true
-					case *ssa.MakeInterface:
-						visit(x, depth+1)
-					case *ssa.Store:
-						if x.Val == v {
-							if al, isLocal := x.Addr.(*ssa.Alloc); !isLocal {
-								escapes = true
-							} else {
-								// a result spilled to a local because of defer
-								for _, r2 := range refsOf(al) {
-									if ld, ok := r2.(*ssa.UnOp); ok {
-										for _, r3 := range refsOf(ld) {
-											if _, isRet := r3.(*ssa.Return); isRet {
-												escapes = true
-											}
-										}
-									}
-								}
-							}
-						}
-					case *ssa.Call:
-						if x == site {
-							continue
-						}
-						// handed to a call whose result leaves the function
-						for _, a := range x.Common().Args {
-							if a == v {
-								for _, r2 := range refsOf(x) {
-									switch y := r2.(type) {
-									case *ssa.Return:
-										escapes = true
-									case *ssa.Extract:
-										visit(y, depth+1)
-									}
-								}
-								// a result that can alias the object's memory
-								// (buf.Bytes(), bytes.NewReader(...)) is the
-								// object as far as the pool is concerned
-								if bi, isB := x.Common().Value.(*ssa.Builtin); isB {
-									// append(dst, v...) copies v's elements:
-									// only the destination (first argument)
-									// is aliased by the result
-									if bi.Name() != "append" || x.Common().Args[0] != v {
-										continue
-									}
-								}
-								if x.Type() != nil && mayHoldPointer(x.Type()) && !isErrorType(x.Type()) {
-									if _, isTuple := x.Type().(*types.Tuple); !isTuple {
-										visit(x, depth+1)
-									}
-								}
-							}
-						}
-					}
-				}
-			}
-			visit(obj, 0)
-			r.Ob(!escapes)
-			if escapes {
-				r.Violation("pooled-object-escapes|"+fnKey(fn), p.instrPos(site), fnKey(fn)+" returns an object to a sync.Pool while a value it returns (or stores) still refers to it: another goroutine can get and overwrite it while it is in use", nil)
-			}
-		})
-	}
+	pooledObjectsRule(c, r)
 	r.RequireRole("done-channel", "goroutine-body", "close-method", "done-receive")
 }
 
@@ -829,4 +832,105 @@ func closesPipe(p *Program, n *types.Named) bool {
 		}
 	}
 	return false
+}
+
+// pooledObjectsRule: an object handed back to a sync.Pool is not referred to
+// by anything the function returns or stores (a request body that aliases a
+// pooled buffer is overwritten by the next request built anywhere in the
+// process).
+func pooledObjectsRule(c *Ctx, r *RuleResult) {
+	p := c.P
+	if p.Control {
+		r.ExpectControl("pooled-object-escapes|internal.zzVerifControlPooled")
+	}
+	// pooled objects must not outlive their return to the pool
+	for _, fn := range p.ModFns {
+		if !inLib(fn) || len(fn.Blocks) == 0 {
+			continue
+		}
+		eachCall(fn, func(site ssa.CallInstruction) {
+			if calleeName(site.Common()) != "(*sync.Pool).Put" || len(site.Common().Args) < 2 {
+				return
+			}
+			r.Role("pool-put")
+			obj := site.Common().Args[1]
+			for {
+				if mi, ok := obj.(*ssa.MakeInterface); ok {
+					obj = mi.X
+					continue
+				}
+				break
+			}
+			escapes := false
+			var visit func(v ssa.Value, depth int)
+			visit = func(v ssa.Value, depth int) {
+				if depth > 7 {
+					return
+				}
+				for _, ref := range refsOf(v) {
+					switch x := ref.(type) {
+					case *ssa.Return:
+						escapes = true
+					case *ssa.MakeInterface:
+						visit(x, depth+1)
+					case *ssa.Store:
+						if x.Val == v {
+							if al, isLocal := x.Addr.(*ssa.Alloc); !isLocal {
+								escapes = true
+							} else {
+								// a result spilled to a local because of defer
+								for _, r2 := range refsOf(al) {
+									if ld, ok := r2.(*ssa.UnOp); ok {
+										for _, r3 := range refsOf(ld) {
+											if _, isRet := r3.(*ssa.Return); isRet {
+												escapes = true
+											}
+										}
+									}
+								}
+							}
+						}
+					case *ssa.Call:
+						if x == site {
+							continue
+						}
+						// handed to a call whose result leaves the function
+						for _, a := range x.Common().Args {
+							if a == v {
+								for _, r2 := range refsOf(x) {
+									switch y := r2.(type) {
+									case *ssa.Return:
+										escapes = true
+									case *ssa.Extract:
+										visit(y, depth+1)
+									}
+								}
+								// a result that can alias the object's memory
+								// (buf.Bytes(), bytes.NewReader(...)) is the
+								// object as far as the pool is concerned
+								if bi, isB := x.Common().Value.(*ssa.Builtin); isB {
+									// append(dst, v...) copies v's elements:
+									// only the destination (first argument)
+									// is aliased by the result
+									if bi.Name() != "append" || x.Common().Args[0] != v {
+										continue
+									}
+								}
+								if x.Type() != nil && mayHoldPointer(x.Type()) && !isErrorType(x.Type()) {
+									if _, isTuple := x.Type().(*types.Tuple); !isTuple {
+										visit(x, depth+1)
+									}
+								}
+							}
+						}
+					}
+				}
+			}
+			visit(obj, 0)
+			r.Ob(!escapes)
+			if escapes {
+				r.Violation("pooled-object-escapes|"+fnKey(fn), p.instrPos(site), fnKey(fn)+" returns an object to a sync.Pool while a value it returns (or stores) still refers to it: another goroutine can get and overwrite it while it is in use", nil)
+			}
+		})
+	}
 }
